@@ -692,9 +692,10 @@ class Dataset(AbstractDataset, dict, OpMixin, GetSetDelAttrMixin):
             # Make sure the axis values match the requested new axis
             dataset.axes[axis][mask] = values[mask]
 
+            axis_nm = newax.name
             for k in dataset.keys():
-                if method is None:
-                    dataset[k].put(mask, fill_value, axis=axis, inplace=True, indexing="position", cast=True)
+                if method is None and axis_nm in dataset[k].dims: # by name: variables may lack the axis or order it differently
+                    dataset[k].put(mask, fill_value, axis=axis_nm, inplace=True, indexing="position", cast=True)
 
         return dataset
 
